@@ -249,3 +249,98 @@ func VerifC19_Encoding() {
 	verifEqBytes(enc.DecodeBytes(sb), s, "C19.enc.bytes.roundtrip")
 	vrt.Reach("done")
 }
+
+func init() { vrt.Register("VerifC19_Any", VerifC19_Any) }
+
+// VerifC19_Any: WriteAnyWithDesc of a generic Go value of shape SHAPE produces exactly the reference
+// encoding of the value, and ReadAnyWithDesc of that encoding yields a value that is written back to the
+// same bytes.  Maps hold one entry (Go's map order is not part of the claim).
+func VerifC19_Any() {
+	shape := vrt.Param("SHAPE")
+	iv := int32(vrt.U32())
+	sv := vrt.Bytes(2)
+	kv := int8(vrt.U8())
+	inner := VerifStruct("In", Options{}, VField{ID: 1, Name: "x", Type: VerifBasic(I32), Req: 2}, VField{ID: 300, Name: "s", Type: VerifBasic(STRING), Req: 2})
+	var desc *TypeDescriptor
+	var val interface{}
+	var want []byte
+	useName := false
+	putIntKey := func(b []byte, kt Type) []byte {
+		switch kt {
+		case BYTE:
+			return append(b, byte(kv))
+		case I16:
+			return vrt.PutBE16(b, int(int16(kv)))
+		case I32:
+			return vrt.PutBE32(b, int(kv))
+		}
+		return vrt.PutBE64(b, int64(kv))
+	}
+	switch shape {
+	case 0:
+		desc, val = VerifBasic(I32), iv
+		want = vrt.PutBE32(nil, int(iv))
+	case 1:
+		desc, val = VerifBasic(STRING), string(sv)
+		want = vrt.PutString(nil, sv)
+	case 2:
+		desc, val = VerifList(VerifBasic(I32)), []interface{}{iv, int32(7)}
+		want = vrt.PutBE32(vrt.PutBE32(vrt.PutListHdr(nil, vrt.TI32, 2), int(iv)), 7)
+	case 3:
+		desc, val = VerifMap(VerifBasic(STRING), VerifBasic(I32)), map[string]interface{}{string(sv): iv}
+		want = vrt.PutBE32(vrt.PutString(vrt.PutMapHdr(nil, vrt.TSTRING, vrt.TI32, 1), sv), int(iv))
+	case 4, 5, 6, 7, 8:
+		kt := []Type{I32, BYTE, I16, I32, I64}[shape-4]
+		desc = VerifMap(VerifBasic(kt), VerifBasic(STRING))
+		switch shape {
+		case 4:
+			val = map[int]interface{}{int(kv): string(sv)}
+		case 5:
+			val = map[int8]interface{}{kv: string(sv)}
+		case 6:
+			val = map[int16]interface{}{int16(kv): string(sv)}
+		case 7:
+			val = map[int32]interface{}{int32(kv): string(sv)}
+		case 8:
+			val = map[int64]interface{}{int64(kv): string(sv)}
+		}
+		want = vrt.PutString(putIntKey(vrt.PutMapHdr(nil, byte(kt), vrt.TSTRING, 1), kt), sv)
+	case 9:
+		useName = true
+		desc, val = inner, map[string]interface{}{"x": iv}
+		want = append(vrt.PutBE32(vrt.PutField(nil, vrt.TI32, 1), int(iv)), 0)
+	case 10:
+		desc, val = inner, map[FieldID]interface{}{300: string(sv)}
+		want = append(vrt.PutString(vrt.PutField(nil, vrt.TSTRING, 300), sv), 0)
+	case 12:
+		// a key that is neither string nor integer: generic map
+		desc, val = VerifMap(VerifBasic(DOUBLE), VerifBasic(I32)), map[interface{}]interface{}{float64(1.5): iv}
+		want = vrt.PutBE32(vrt.PutBE64(vrt.PutMapHdr(nil, vrt.TDOUBLE, vrt.TI32, 1), 0x3ff8000000000000), int(iv))
+	case 13:
+		desc, val = VerifMap(VerifBasic(BOOL), VerifBasic(I32)), map[interface{}]interface{}{true: iv}
+		want = vrt.PutBE32(append(vrt.PutMapHdr(nil, vrt.TBOOL, vrt.TI32, 1), 1), int(iv))
+	case 11:
+		desc, val = VerifList(inner), []interface{}{map[FieldID]interface{}{1: iv}, map[FieldID]interface{}{}}
+		want = vrt.PutListHdr(nil, vrt.TSTRUCT, 2)
+		want = append(vrt.PutBE32(vrt.PutField(want, vrt.TI32, 1), int(iv)), 0)
+		want = append(want, 0)
+	}
+	p := BinaryProtocol{Buf: make([]byte, 0, vrt.Param("CAP"))}
+	err := p.WriteAnyWithDesc(desc, val, false, true, useName)
+	vrt.Assert(err == nil, "C19.any.write.noerror")
+	if err != nil {
+		return
+	}
+	vrt.Reach("written")
+	vrt.Assert(vrt.BytesEq(p.Buf, 0, len(p.Buf), want, 0, len(want)), "C19.any.write.equals-reference")
+	// read the reference encoding back and write the result again
+	r := BinaryProtocol{Buf: want}
+	back, err := r.ReadAnyWithDesc(desc, false, true, true, useName)
+	vrt.Assert(err == nil && r.Read == len(want), "C19.any.read.consumes-all")
+	if err != nil {
+		return
+	}
+	w := BinaryProtocol{Buf: make([]byte, 0, 8)}
+	err = w.WriteAnyWithDesc(desc, back, false, true, useName)
+	vrt.Assert(err == nil && vrt.BytesEq(w.Buf, 0, len(w.Buf), want, 0, len(want)), "C19.any.read-write.identity")
+}
